@@ -33,6 +33,11 @@ fn ip_of(label: &str) -> Ipv4Addr {
         "a" => Ipv4Addr::new(45, 10, 0, 1),
         "b" => Ipv4Addr::new(45, 10, 0, 2),
         "c" => Ipv4Addr::new(45, 10, 0, 3), // differs from "a" in one bit of the last octet
+        // "x<N>": the N-th of a crowd of other requesters
+        l if l.starts_with('x') && l[1..].parse::<u32>().is_ok() => {
+            let n = l[1..].parse::<u32>().unwrap_or(0);
+            Ipv4Addr::new(45, 20 + (n / 62_500) as u8, ((n / 250) % 250) as u8, (n % 250) as u8 + 1)
+        }
         _ => Ipv4Addr::new(45, 10, 9, 9),
     }
 }
@@ -41,6 +46,10 @@ fn ip_label(ip: &Ipv4Addr) -> String {
         if ip_of(l) == *ip {
             return l.to_string();
         }
+    }
+    let o = ip.octets();
+    if o[0] == 45 && o[1] >= 20 && o[3] >= 1 {
+        return format!("x{}", (o[1] as u32 - 20) * 62_500 + o[2] as u32 * 250 + o[3] as u32 - 1);
     }
     ip.to_string()
 }
@@ -733,6 +742,38 @@ pub fn crowd_probes(id0: u64) -> Vec<Value> {
     v
 }
 
+/// A busy node: between a requester's lookup and its write (well inside the five minutes a token is good for) `crowd` OTHER
+/// addresses look something up and are handed tokens of their own. Lookup-then-put still works - for every write kind, with and
+/// without a rotation in between.
+pub fn busy_token_probes(id0: u64, crowd: u32) -> Vec<Value> {
+    let mut v = vec![];
+    let from = json!({"ip": "a", "port": 1001});
+    let tok = json!({"kind":"issued","step":0});
+    for (k, rotate) in [false, true].iter().enumerate() {
+        let mut steps = vec![json!({"kind":"get","from":from,"t":["i","v1"],"seqf":-1})];
+        if *rotate {
+            steps.push(json!({"kind":"advance","ms":200_000}));
+        }
+        for n in 0..crowd {
+            let f = json!({"ip": format!("x{n}"), "port": 1001});
+            steps.push(match n % 3 {
+                0 => json!({"kind":"get","from":f,"t":["i","v2"],"seqf":-1}),
+                1 => json!({"kind":"getpeers","from":f,"t":"h1"}),
+                _ => json!({"kind":"getspeers","from":f,"t":"h2"}),
+            });
+        }
+        if *rotate {
+            steps.push(json!({"kind":"advance","ms":90_000}));
+        }
+        steps.push(json!({"kind":"putimm","from":from,"tok":tok,"t":["i","v1"],"val":"v1","vlen":0,"hashok":true}));
+        steps.push(json!({"kind":"announce","from":from,"tok":tok,"t":"h1","nid":"n1","port":7,"implied":false}));
+        steps.push(json!({"kind":"putmut","from":from,"tok":tok,"k":"k1","tk":"k1","salt":"","slen":0,"seq":1,"cas":-1,"val":"w1","vlen":0,"sigok":true}));
+        steps.push(json!({"kind":"sannounce","from":from,"tok":tok,"t":"h2","k":"k1","ts":0,"dt":0,"sigok":true}));
+        v.push(json!({"b": id0 + k as u64, "filter": "allow", "caps": {"imm": 1000, "mut": 1000, "hash": 2000, "peers": 500}, "steps": steps}));
+    }
+    v
+}
+
 pub fn run(args: &Args) -> i32 {
     let seed = args.u64("seed", 1);
     let mut out = Out::create(&args.str("out", "/verif/work/server/trace.ndjson"));
@@ -784,6 +825,12 @@ pub fn run(args: &Args) -> i32 {
     let mut rng = Rng::new(seed.wrapping_mul(77).wrapping_add(5));
     if n > 0 || args.u64("probes", 0) > 0 {
         for b in lru_probes(2_000_000).into_iter().chain(crowd_probes(3_000_000)) {
+            let r = replay(&b, &mut out, seed);
+            t.add(&b, r);
+        }
+    }
+    if n > 0 && focus == "C15" {
+        for b in busy_token_probes(4_000_000, if args.thorough() { 5200 } else { 1100 }) {
             let r = replay(&b, &mut out, seed);
             t.add(&b, r);
         }
